@@ -14,7 +14,7 @@ PROPERTY = "C11"
 LEAN_MODULES = ["BaizeVerif.Props.C11"]
 MODEL_MODULES = ["BaizeVerif.Model.WebSocket"]
 DRIVER_OPS = {"ws_seq": "WebSocket.runSeq", "ws_denial": "WebSocket.runDenial",
-              "ws_shortcut": "WebSocket.runShortcut"}
+              "ws_shortcut": "WebSocket.runShortcut", "ws_session": "WebSocket.runSession"}
 THEOREMS = [
     "Baize.WebSocket.legal_iff",
     "Baize.WebSocket.forwarded_legal",
@@ -163,7 +163,13 @@ async def one_op(ws, c, vals):
         await ws.send({"type": type_of(c - 30)})
 
 
-async def scenario(ops, script):
+class ViewError(Exception):
+    """what the session view raises after its calls"""
+
+
+async def scenario(ops, script, session=False):
+    """session=True: the same calls made by a view under `websocket_session`, which then RAISES; whatever the
+    shortcut forwards on its own after that is appended as ` ; END <events>`"""
     fwd = []
     st = {"pos": 0, "calls": 0}
     box = {}
@@ -186,29 +192,52 @@ async def scenario(ops, script):
         # every other scenario: a server that advertises the denial-response extension (what the wrapper may
         # forward does not depend on it: denial events are the business of WebsocketDenialResponse)
         scope["extensions"] = {"websocket.http.response": {}}
-    ws = box["ws"] = WebSocket(scope, receive, send)
     recs = []
-    for c in ops:
-        vals = []
-        f0, r0 = len(fwd), st["calls"]
+
+    async def drive(ws):
+        box["ws"] = ws
+        for c in ops:
+            vals = []
+            f0, r0 = len(fwd), st["calls"]
+            try:
+                fin = await one_op(ws, c, vals) or "ok"
+            except AssertionError:
+                fin = "AssertionError"
+            except WebSocketDisconnect as exc:
+                fin = "WebSocketDisconnect=%s" % exc.code
+            except KeyError:
+                fin = "KeyError"
+            except ScriptEnd:
+                fin = "ScriptEnd"
+            except RuntimeError:
+                fin = "RuntimeError"
+            except Exception as exc:  # noqa
+                fin = "crash:%s" % type(exc).__name__
+            recs.append("%s %s %s %d %d%d" % (fin, ",".join(vals) or "-", ",".join(fwd[f0:]) or "-",
+                                            st["calls"] - r0, RANK.get(ws.client_state, 9),
+                                            RANK.get(ws.application_state, 9)))
+
+    if not session:
+        await drive(WebSocket(scope, receive, send))
+        return " ; ".join(recs) if recs else "-"
+
+    async def view(ws):
+        await drive(ws)
+        raise ViewError()
+
+    mark = [None]
+    try:
+        task = websocket_session(view)(scope, receive, send)
         try:
-            fin = await one_op(ws, c, vals) or "ok"
-        except AssertionError:
-            fin = "AssertionError"
-        except WebSocketDisconnect as exc:
-            fin = "WebSocketDisconnect=%s" % exc.code
-        except KeyError:
-            fin = "KeyError"
-        except ScriptEnd:
-            fin = "ScriptEnd"
-        except RuntimeError:
-            fin = "RuntimeError"
-        except Exception as exc:  # noqa
-            fin = "crash:%s" % type(exc).__name__
-        recs.append("%s %s %s %d %d%d" % (fin, ",".join(vals) or "-", ",".join(fwd[f0:]) or "-",
-                                        st["calls"] - r0, RANK.get(ws.client_state, 9),
-                                        RANK.get(ws.application_state, 9)))
-    return " ; ".join(recs) if recs else "-"
+            await task
+        except ViewError:
+            pass
+    except Exception as exc:  # noqa
+        mark[0] = "crash:%s" % type(exc).__name__
+    n_in_view = sum(0 if r.split(" ")[2] == "-" else len(r.split(" ")[2].split(",")) for r in recs)
+    after = [f.rsplit("@", 1)[0] for f in fwd[n_in_view:]]
+    tail = mark[0] or (",".join(after) or "-")
+    return (" ; ".join(recs) if recs else "-") + " ; END " + tail
 
 
 class FakeResponse:
@@ -287,6 +316,8 @@ def impl(line):
     try:
         if a[0] == "ws_seq":
             return loop().run_until_complete(scenario(nums(a[1]), nums(a[2])))
+        if a[0] == "ws_session":
+            return loop().run_until_complete(scenario(nums(a[1]), nums(a[2]), session=True))
         if a[0] == "ws_denial":
             return loop().run_until_complete(denial(type_of(int(a[1])), a[2] != "0", a[3] != "0",
                                                     [type_of(i) for i in nums(a[4])]))
@@ -409,6 +440,22 @@ def oracle_seq(ops, script, out):
 
 def oracle(line, out):
     a = line.split(" ")
+    if a[0] == "ws_session":
+        if " ; END " not in out:
+            return "unexpected outcome %s" % out[:80]
+        head, tail = out.rsplit(" ; END ", 1)
+        if tail.startswith("crash"):
+            return "the session shortcut raised %s instead of the view's own exception" % tail
+        why = oracle_seq(nums(a[1]), nums(a[2]), head) if head != "-" else None
+        if why:
+            return why
+        inside = [fwd_type(t) for rec in ((parse_trace(head) or []) if head != "-" else []) for t in rec[2]]
+        after = [] if tail == "-" else tail.split(",")
+        word = "".join(LETTER.get(t, "x") for t in inside + after)
+        if not (LEGAL.match(word) or set(word) <= {"x"}):
+            return ("after the view raised, the shortcut forwarded %s: the events the server received in all (%s) are "
+                    "not a legal application sequence" % (tail, ",".join(inside + after)))
+        return None
     if a[0] == "ws_seq":
         return oracle_seq(nums(a[1]), nums(a[2]), out)
     if "crash" in out or out in ("hang", "bad-op", "view-called"):
@@ -502,6 +549,11 @@ def cases(rng, tier):
             for has_ext in (0, 1):
                 for types in ([], [7, 9], [7, 9, 9], [7, 6, 9], [0], [2], [1, 7], [8]):
                     yield "ws_denial %d %d %d %s" % (scope, has_resp, has_ext, ",".join(map(str, types)) or "-")
+    # the same call sequences made by a view under websocket_session that raises afterwards
+    for n in range(0, 3):
+        for ops in itertools.product(REDUCED, repeat=n):
+            for sc in WELL:
+                yield "ws_session %s %s" % (",".join(map(str, ops)) or "-", ",".join(map(str, sc)) or "-")
     yield "ws_shortcut 0 0"
     yield "ws_shortcut 0 1"
     for scope in (10, 11, 12, 6):
